@@ -4,6 +4,7 @@ use crate::cache::cache::{
 };
 use crate::cache::error::{CacheError, Result};
 use crate::server::timer;
+use dashmap::mapref::entry::Entry;
 use dashmap::mapref::multiple::RefMulti;
 use dashmap::{DashMap, ReadOnlyView};
 #[cfg(memcrs_verif)]
@@ -88,26 +89,28 @@ impl Cache for MemoryStore {
     fn set(&self, key: KeyType, mut record: Record) -> Result<SetStatus> {
         //trace!("Set: {:?}", &record.header);
         if record.header.cas > 0 {
-            match self.memory.get_mut(&key) {
-                Some(mut key_value) => {
-                    if key_value.header.cas != record.header.cas {
+            // The entry holds the shard lock from the presence test to the
+            // insert, so the test and the store are one atomic step.
+            match self.memory.entry(key) {
+                Entry::Occupied(mut key_value) => {
+                    if key_value.get().header.cas != record.header.cas {
                         Err(CacheError::KeyExists)
                     } else {
                         record.header.cas = self.get_cas_id();
                         record.header.timestamp = self.timer.timestamp();
                         let cas = record.header.cas;
-                        *key_value = record;
+                        key_value.insert(record);
                         Ok(SetStatus { cas })
                     }
                 }
-                None => {
+                Entry::Vacant(vacant) => {
                     record.header.cas = match record.header.cas.checked_add(1) {
                         Some(cas) => cas,
                         None => self.get_cas_id(),
                     };
                     record.header.timestamp = self.timer.timestamp();
                     let cas = record.header.cas;
-                    self.memory.insert(key, record);
+                    vacant.insert(record);
                     Ok(SetStatus { cas })
                 }
             }
